@@ -280,6 +280,7 @@ class Interp:
         self.inlined = set()
         self.called = set()
         self.heap_writes = 0
+        self.heap_log = None
         from . import models
         models.install(self)
 
@@ -731,6 +732,9 @@ class Interp:
         inv = self.find_invariant(fr, ordinal)
         if inv is not None:
             return self.loop_with_invariant(st, fr, inv, itv)
+        from .models import SentinelIter
+        if isinstance(itv, SentinelIter):
+            itv = ops.sentinel_items(self, itv)
         if isinstance(itv, ops.SymRange):
             raise Unsupported('for over symbolic range without invariant '
                               '(%s line %d)' % (fr.func.qualname if fr.func
@@ -1400,6 +1404,8 @@ class Interp:
                 return
             o.attrs[name] = v
             self.heap_writes += 1
+            if self.heap_log is not None:
+                self.heap_log.append((o, name))
             return
         if isinstance(o, FuncVal):
             o.attrs[name] = v
